@@ -336,7 +336,7 @@ def surface_forms(brank, ri, ci, rng):
     return forms
 
 
-EXHAUSTIVE_QUICK = [(1, 1), (1, 3), (2, 2), (2, 3), (3, 2), (4, 3), (3, 4)]
+EXHAUSTIVE_QUICK = [(1, 2), (2, 3), (3, 2), (4, 3)]
 
 
 def layout_tables(shapes):
@@ -359,13 +359,18 @@ def run_getitem_checks(out, ctx, tab):
     shapes = [(n, t) for n in range(1, 5) for t in range(1, 5)]
     exh = set(shapes) if tier == "thorough" else set(EXHAUSTIVE_QUICK)
     # 1. exhaustive families, enumerated by Coq in a fixed order
-    fam_cases, fam_meta = [], []
+    fam_cases, fam_meta, sampled = [], [], []
     for (n, t) in shapes:
         for il in (True, False):
             for fam in (0, 1, 2):
-                fam_cases.append("(%s, %d, %d, %d, %d, %d)" % ("true" if il else "false", n, t, fam, LO, HI))
-                fam_meta.append((n, t, il, fam))
-    fam_res = C.coq_run_cases("C11_fam", IMPORTS, "Definition run := run_family.", fam_cases, shard=6)
+                if fam == 0 or (n, t) in exh:
+                    fam_cases.append("(%s, %d, %d, %d, %d, %d)" % ("true" if il else "false", n, t, fam, LO, HI))
+                    fam_meta.append((n, t, il, fam))
+                else:   # quick tier, shape outside the exhaustive set: a 1/16 sample, run through Coq individually
+                    cores = family_cores(n, t, fam)
+                    for j in range(rng.randrange(16), len(cores), 16):
+                        sampled.append((n, t, il, cores[j]))
+    fam_res = C.coq_run_cases("C11_fam", IMPORTS, "Definition run := run_family.", fam_cases, shard=3)
     dists = {}
 
     def dist(n, t, il, brank, rep="dense"):
@@ -379,12 +384,9 @@ def run_getitem_checks(out, ctx, tab):
         cores = family_cores(n, t, fam)
         if len(cores) != len(res):
             raise RuntimeError("family enumeration out of step with the Coq model: %d vs %d" % (len(cores), len(res)))
-        full = (n, t) in exh or fam == 0
-        stride = 1 if full else 12
-        off = rng.randrange(stride)
         d, mean, cov = dist(n, t, il, 0)
         perm = tab[(n, t, il)]["perm"]
-        for j in range(off, len(cores), stride):
+        for j in range(len(cores)):
             lab, ri, ci = cores[j]
             check_getitem(out, d, mean, cov, perm, n, t, il, 0, [ri, ci], (ri, ci), res[j], lab + ":rank0", "dense")
         # a sample of the same cores under batch rank 1 / other surface forms / lazy representation
@@ -397,6 +399,11 @@ def run_getitem_checks(out, ctx, tab):
                     batch_extra.append((n, t, il, brank, idx, (ri, ci), lab + ":" + flab, "dense"))
             if rng.random() < 0.25:
                 batch_extra.append((n, t, il, 0, [ri, ci], (ri, ci), lab + ":lazy-sum", "lazy"))
+    for (n, t, il, (lab, ri, ci)) in sampled:
+        batch_extra.append((n, t, il, 0, [ri, ci], (ri, ci), lab + ":rank0", "dense"))
+        if rng.random() < 0.05:
+            for flab, idx in surface_forms(1, ri, ci, rng):
+                batch_extra.append((n, t, il, 1, idx, (ri, ci), lab + ":" + flab, "dense"))
     # 2. other families (slice x slice, tensors), all shapes, both ranks
     for (n, t) in shapes:
         for il in (True, False):
@@ -422,7 +429,7 @@ def run_getitem_checks(out, ctx, tab):
         check_getitem(out, d, mean, cov, tab[(n, t, il)]["perm"], n, t, il, brank, idx, core, mres, lab, rep)
     out.extra["exhaustive_bound"] = ("int x int, int x slice, slice x int: ALL ints -len-1..len and ALL slices with "
                                      "start/stop in {None,%d..%d}, step in {None,1,2,3}, both layouts, on shapes %s; "
-                                     "1/12 stride sample on the other shapes of 1..4 x 1..4" % (LO, HI, sorted(exh)))
+                                     "1/16 stride sample on the other shapes of 1..4 x 1..4" % (LO, HI, sorted(exh)))
 
 
 # --------------------------------------------------------------------------- methods and constructors
